@@ -14,7 +14,8 @@ struct StreamRef {
   int nlinks = 0;
   std::vector<int64_t> boundaries;      // sorted global page-boundary positions (link starts and page granules)
   bool damaged = false;
-  bool has_bs64 = false;
+  bool has_bs64 = false;        // some link has 64-sample short blocks: switching half rate on must be refused
+  bool bs64_rewritten = false;  // ... and it is a header-rewritten encoder link, whose positions are not consistent (DESIGN 13.2); a crafted link with genuine 64-sample blocks is exact
   bool ambiguous_cut = false;           // a cut link whose audio sits on a single page: start offset and end trim cannot be told apart from page granules
   std::vector<int64_t> goff;            // granule position at which each link's audio starts (0 unless cut / 64-sample rewrite)
   int link_of(int64_t pos) const {      // link containing sample pos (pos < total); for pos==total returns nlinks-1
